@@ -9,17 +9,18 @@ import time
 def main():
     what, workers, src, out = sys.argv[1], int(sys.argv[2]), sys.argv[3], pathlib.Path(sys.argv[4])
     t0 = time.time()
+    show = os.environ.get("B2Z_VERIF_SHOW_PROGRESS") == "1"
     res = {"raised": None}
     try:
         if what == "explode":
             from bio2zarr import vcf2zarr
-            vcf2zarr.explode(out, [src], worker_processes=workers, column_chunk_size=0.0001)
+            vcf2zarr.explode(out, [src], worker_processes=workers, column_chunk_size=0.0001, show_progress=show)
         elif what == "encode":
             from bio2zarr import vcf2zarr
-            vcf2zarr.encode(src, out, worker_processes=workers, variants_chunk_size=2)
+            vcf2zarr.encode(src, out, worker_processes=workers, variants_chunk_size=2, show_progress=show)
         elif what == "plink":
             from bio2zarr import plink
-            plink.convert(src, out, worker_processes=workers, variants_chunk_size=2)
+            plink.convert(src, out, worker_processes=workers, variants_chunk_size=2, show_progress=show)
     except BaseException as e:  # noqa: BLE001
         res["raised"] = type(e).__name__
         res["message"] = str(e)[:200]
